@@ -89,14 +89,28 @@ Definition decompress_tbl (tbl : list (list N * list N)) (_ : Encoder.cenc) (z :
 (* [n] bytes that start with the 4-byte tag [id] (distinct per table entry) *)
 Definition surrogate (n id : N) : list N := ntake n (be32 id ++ rep (n - 4) 0).
 
-(* poorly compressible test payload: the high byte of a 31-bit linear congruential generator *)
-Fixpoint lcg_nat (n : nat) (x : N) : list N :=
+(* poorly compressible test payload: the low byte of a 32-bit xorshift generator (bit
+   operations only, so that 10^5 bytes evaluate quickly) *)
+Definition xs32 (x : N) : N :=
+  let x := N.land (N.lxor x (N.shiftl x 13)) 4294967295 in
+  let x := N.lxor x (N.shiftr x 17) in
+  N.land (N.lxor x (N.shiftl x 5)) 4294967295.
+Fixpoint noise_nat (n : nat) (x : N) : list N :=
   match n with
   | O => []
-  | S k => let x' := (x * 1103515245 + 12345) mod 2147483648 in
-           ((x' / 65536) mod 256) :: lcg_nat k x'
+  | S k => let x' := xs32 x in N.land x' 255 :: noise_nat k x'
   end.
-Definition lcg (n seed : N) : list N := lcg_nat (N.to_nat n) seed.
+Definition noise (n seed : N) : list N := noise_nat (N.to_nat n) seed.
+
+(* payloads above 4096 bytes are compared by length and a rotate-xor checksum (the harness's
+   direct oracle still compares them byte by byte with the input) *)
+Definition rx32 (p : list N) : N :=
+  fold_left (fun h b => N.land (N.lxor (N.lxor (N.shiftl h 5) (N.shiftr h 27)) b) 4294967295) p 7.
+Definition pres_obs2 (r : pres (list N)) : tr :=
+  match r with
+  | Item (IOk m) => if 4096 <? nlen m then Nd [Nn 1; Nn (nlen m); Nn (rx32 m)] else Nd [Nn 1; Bs m]
+  | _ => pres_obs r
+  end.
 
 (* the source stream of the encoder: None = Pending, Some m = Ready(Some(Ok(m))) *)
 Definition src_of (l : list (option (list N))) : list (Encoder.sevent (list N)) :=
@@ -144,5 +158,5 @@ Definition obs_roundtrip (tbl : list (list N * list N))
     let d0 := dec_new (dir_of_role r) (option_map cenc_of comp) dmax in
     let '(t, fin) := drain deser_raw (decompress_tbl tbl) (N.to_nat fuel) script (mkB 0) d0 in
     Nd [Nd (map frame_len_obs frames);
-        Nd (map pres_obs t);
+        Nd (map pres_obs2 t);
         obool (match fin with Some _ => true | None => false end)].
